@@ -47,6 +47,12 @@ static inline uint64_t vf_undef(void) { return nondet_undef64(); }
 #define VF_E_ESCAPE      7   /* exception escaped the harness entry */
 
 static inline void vf_note(uint32_t tag, uint64_t v) { (void)tag; (void)v; }
+/* make n bytes at p arbitrary (CBMC) / a fixed pseudo-random pattern (native, identical on both native sides) */
+#ifdef VF_NATIVE
+static inline void vf_havoc(uint8_t *p, uint64_t n) { for (uint64_t i = 0; i < n; ++i) p[i] = (uint8_t)(i * 37u + 11u); }
+#else
+static inline void vf_havoc(uint8_t *p, uint64_t n) { __CPROVER_havoc_slice(p, n); }
+#endif
 
 /* ---- exceptions: pending-flag protocol */
 static uint8_t vf_exc_pending;
